@@ -13,9 +13,15 @@ in the model: when the code calls `CB`, the model emits a `cb` event and waits
 between are what the callback did.  The theorems quantify over all op lists,
 hence over all callback behaviours (including ill-bracketed streams).
 
-The entry of the request being completed is still in the table while its own
-callback runs and is deleted afterwards — exactly as the code does
-(`wait.CB(err, msg); delete(s.Handlers, id)`).
+The entry of the request being completed is removed from the table *before* its
+callback runs — as the code does since the D18 repair
+(`delete(s.Handlers, id); wait.CB(err, msg)`).  A callback may also panic
+(`Op.panic`): inside the expiry scan the panic unwinds `checkExpired` and every
+callback frame above it and is recovered by `timer.Mgr.do`; the ids the scan had
+not reached yet stay in the table (still overdue) and are taken by the next
+scan.  A panic inside `handleResponse` escalates to the actor supervisor
+(restart of the actor) — a different regime, not modelled: `panic` is a no-op
+unless a scan is in progress.
 
 Ghost components (never read by the transition function, only written):
 `log` (newest event first), `Wait.inst` / `ninst` (instance numbers: one per
@@ -68,8 +74,8 @@ inductive Ev
 synchronous serialisation-failure callbacks) -/
 inductive Base
   | idle
-  | inResp (id : Nat)                  -- in `handleResponse`, callback running, `delete` still to come
-  | inTick (id : Nat) (rest : List Nat) -- in `checkExpired`, callback of `id` running, `rest` still to do
+  | inResp (inst : Nat)                   -- in `handleResponse`, callback of instance `inst` running
+  | inTick (inst : Nat) (rest : List Nat) -- in `checkExpired`, callback of `inst` running, ids `rest` still to do
   deriving DecidableEq, Repr
 
 structure State where
@@ -147,23 +153,26 @@ def issue (s : State) (isReq serOk hasCb : Bool) : State :=
 /-- is the goroutine free to take the next message / timer event? -/
 def free (s : State) : Bool := s.nest == 0 && s.base == .idle
 
-/-- `handleResponse` up to the callback (the `delete` is in `ret`) -/
+/-- `handleResponse`: look up, decode, `delete`, callback -/
 def response (s : State) (id : Nat) (p : Payload) : State :=
   if !free s then s else
   match find id s.pending with
   | none => { s with log := .dropped id :: s.log }
   | some w =>
-    if w.hasCb then { s with base := .inResp id, log := .cb w.inst id (decode p) s.now :: s.log }
+    if w.hasCb then
+      { finish s id with base := .inResp w.inst, log := .cb w.inst id (decode p) s.now :: (finish s id).log }
     else finish s id
 
-/-- the `for _, reqId := range expires` loop of `checkExpired`, up to the next callback -/
+/-- the `for _, reqId := range expires` loop of `checkExpired`, up to the next callback:
+`delete` first, then the callback -/
 def tickLoop (s : State) : List Nat → State
   | [] => { s with base := .idle }
   | id :: rest =>
     match find id s.pending with
     | none => { s with base := .idle, collided := true }   -- Go: nil dereference, recovered by timer.Mgr.do
     | some w =>
-      if w.hasCb then { s with base := .inTick id rest, log := .cb w.inst id .timeout s.now :: s.log }
+      if w.hasCb then
+        { finish s id with base := .inTick w.inst rest, log := .cb w.inst id .timeout s.now :: (finish s id).log }
       else tickLoop (finish s id) rest
 
 /-- the timer callback `checkExpired`; a cancelled timer never fires -/
@@ -177,14 +186,22 @@ def ret (s : State) : State :=
   if s.nest > 0 then { s with nest := s.nest - 1 }
   else match s.base with
     | .idle => s
-    | .inResp id => { finish s id with base := .idle }
-    | .inTick id rest => tickLoop (finish s id) rest
+    | .inResp _ => { s with base := .idle }
+    | .inTick _ rest => tickLoop s rest
+
+/-- the running callback panics while a scan is in progress: `checkExpired` and every
+frame above it are unwound, `timer.Mgr.do` recovers; the timer is re-armed as usual -/
+def panicScan (s : State) : State :=
+  match s.base with
+  | .inTick _ _ => { s with base := .idle, nest := 0 }
+  | _ => s
 
 inductive Op
   | issue (isReq serOk hasCb : Bool)
   | response (id : Nat) (p : Payload)
   | tick (order : List Nat)
   | ret
+  | panic
   | advance (dt : Nat)
   deriving Repr
 
@@ -193,6 +210,7 @@ def step (s : State) : Op → State
   | .response id p => response s id p
   | .tick order => tick s order
   | .ret => ret s
+  | .panic => panicScan s
   | .advance dt => { s with now := s.now + dt }
 
 def run (s : State) (ops : List Op) : State := ops.foldl step s
@@ -215,5 +233,22 @@ def issueD10 (s : State) (isReq serOk hasCb : Bool) : State :=
     else s
   else
     if serOk then { s with log := .sent inst 0 :: s.log } else s
+
+/-! ### D18 (repaired by the `fix:` commit): the previous `checkExpired` called the
+callback first and deleted the entry only after it had returned — a panicking
+callback (recovered by the timer manager) left the entry behind. -/
+def tickLoopD18 (s : State) : List Nat → State
+  | [] => { s with base := .idle }
+  | id :: rest =>
+    match find id s.pending with
+    | none => { s with base := .idle, collided := true }
+    | some w =>
+      if w.hasCb then { s with base := .inTick w.inst rest, log := .cb w.inst id .timeout s.now :: s.log }
+      else tickLoopD18 (finish s id) rest
+
+def tickD18 (s : State) (order : List Nat) : State :=
+  if !free s || !s.armed then s
+  else if s.pending.isEmpty then { s with armed := false, log := .freed :: s.log }
+  else tickLoopD18 s (pickOrder order (dueIds s.now s.pending))
 
 end Cell2v.Service
